@@ -9,7 +9,9 @@
 // Protocol (one request per line, one answer per line):
 //
 //	q  <goos>/<goarch> <term>      -> a=<size>,<align>,<offs> b=<size>,<align>,<offs> c=<size>,<align>,<fieldalign>,<ptrbytes>,<offs> e=<size>,<align>
-//	mb <goos>/<goarch> <key> <elem> -> ks=<n> es=<n> bs=<n> a=… b=… c=…      (the three computations on the bucket struct)
+//	mb <goos>/<goarch> <key> <elem> -> md=<KeySize>,<ValueSize>,<BucketSize>,<Flags&3> (read back from the EMITTED map descriptor)
+//	                                   kb=<size>,<align> eb=<size>,<align> (key, elem in generated code)
+//	                                   ks=<n> es=<n> bs=<n> a=… b=… c=…      (abi sizes; the three computations on the bucket struct)
 //	dl <goos>/<goarch>             -> LLVM data layout string + pointer size
 //
 // <offs> = `-` for a non-struct, `.` for a struct without fields, else o1:o2:…
@@ -160,6 +162,8 @@ func (p *parser) term() types.Type {
 }
 
 type tgt struct {
+	pkg   ssa.Package // scratch package the map descriptors are emitted into
+	seq   int
 	prog  ssa.Program
 	sizes types.Sizes // (a): the wrapper returned by prog.TypeSizes
 	ab    *abi.Builder
@@ -285,7 +289,19 @@ func handle(line string) (out string) {
 		// abiExtendedFields works on the raw map type
 		mraw := tg.prog.Type(types.NewMap(k, e), ssa.InGo).RawType().(*types.Map)
 		bucket := tg.ab.MapBucket(mraw)
-		return fmt.Sprintf("ks=%d es=%d bs=%d ", tg.ab.Size(mraw.Key()), tg.ab.Size(mraw.Elem()), tg.ab.Size(bucket)) + tg.three(bucket)
+		// the emitted descriptor (abitype.go abiExtendedFields): KeySize, ValueSize, BucketSize, Flags as constants of the IR
+		if tg.pkg == nil {
+			tg.pkg = tg.prog.NewPackage("vp08m", "vp08/m")
+		}
+		tg.seq++
+		dks, dvs, dbs, dfl, nops := ssa.VerifMapDesc(tg.pkg, tg.seq, mraw)
+		if nops != 9 {
+			panic(fmt.Sprintf("map descriptor initialiser has %d operands, want 9", nops))
+		}
+		// sizes/alignments of key and element in generated code (b)
+		kt, et := tg.prog.Type(mraw.Key(), ssa.InC), tg.prog.Type(mraw.Elem(), ssa.InC)
+		md := fmt.Sprintf("md=%d,%d,%d,%d kb=%d,%d eb=%d,%d ", dks, dvs, dbs, dfl&3, tg.prog.SizeOf(kt), ssa.VerifABIAlign(tg.prog, kt), tg.prog.SizeOf(et), ssa.VerifABIAlign(tg.prog, et))
+		return md + fmt.Sprintf("ks=%d es=%d bs=%d ", tg.ab.Size(mraw.Key()), tg.ab.Size(mraw.Elem()), tg.ab.Size(bucket)) + tg.three(bucket)
 	case len(f) == 2 && f[0] == "dl":
 		tg := target(f[1])
 		return fmt.Sprintf("%s ptr=%d", tg.prog.DataLayout(), tg.prog.PointerSize())
